@@ -236,7 +236,11 @@ class Net:
         sock.pump()
 
     def do_write(self, sock: Sock, depth: int, data: bytes, timeout: typing.Any) -> None:
-        e = self.log("write", sock, data=data, timeout=timeout, depth=depth, k=self.ops)
+        e = self.log("write", sock, data=data, timeout=timeout, depth=depth, k=self.ops,
+                     peer_state=getattr(sock.peer, "state", None),
+                     unread_before=sock.produced - sock.consumed,
+                     peer_buf_before=len(getattr(sock.peer, "buf", b"")),
+                     peer_requests_before=len(getattr(sock.peer, "requests", ())))
         if self._fault_here():
             kind = self._kind()
             self.fault_fired = f"write:{kind}"
@@ -264,7 +268,8 @@ class Net:
     def read_prologue(self, sock: Sock, depth: int, max_bytes: typing.Any, timeout: typing.Any) -> typing.Any:
         """Returns b'' / raises for faults, or None to continue with the
         normal read."""
-        e = self.log("read", sock, max_bytes=max_bytes, timeout=timeout, depth=depth, k=self.ops)
+        e = self.log("read", sock, max_bytes=max_bytes, timeout=timeout, depth=depth, k=self.ops,
+                     peer_state=getattr(sock.peer, "state", None))
         self._last_read = e
         if self._fault_here():
             kind = self._kind()
